@@ -1408,6 +1408,19 @@ func (interpreter *Interpreter) declareNonEnumCompositeValue(
 						// activations existing at the time when the event was defined and use them here
 						declarationActivation,
 					)
+
+					// The default arguments are transferred to the event's parameters:
+					// convert and box them to the parameter types, like the arguments of an emit statement are
+					// (e.g. a `String`-typed default argument for a `String?`-typed parameter must become `Optional`,
+					// otherwise the exported event does not conform to its type).
+					for i, argument := range invocation.Arguments {
+						parameterType := compositeType.ConstructorParameters[i].TypeAnnotation.Type
+						invocation.Arguments[i] = ConvertAndBox(
+							invocationInterpreter,
+							argument,
+							parameterType,
+						)
+					}
 				}
 
 				for i, argument := range invocation.Arguments {
